@@ -44,6 +44,7 @@ type decision struct {
 	n     int    // number of options
 	costs []cost // cost of each option (costs[0] is always zero)
 	desc  []string
+	key   uint64 // hash of the global state at a scheduling decision (0: not available, never pruned)
 }
 
 type killSentinel struct{}
@@ -97,6 +98,8 @@ type Exec struct {
 	Diverged   string // non-empty: replay of the prefix did not match
 	Violations []string
 	states     map[uint64]struct{}
+	lastState  uint64 // state hash after the latest step
+	KeyStates  bool   // compute state hashes (needed for counting and for pruning)
 }
 
 var (
@@ -295,6 +298,9 @@ func (x *Exec) stateHash() uint64 {
 	for _, t := range x.Threads {
 		mix(t.Obs)
 		mix(uint64(t.Steps))
+		for i := 0; i < len(t.kind); i++ {
+			mix(uint64(t.kind[i]))
+		}
 		if t.done {
 			mix(1)
 		}
@@ -374,6 +380,13 @@ func (x *Exec) run() {
 					d.desc[n-1] = fmt.Sprintf("kill T%d(%s)", x.last.ID, x.last.Name)
 				}
 			}
+			if x.KeyStates {
+				// The state between two steps, plus who ran last (it decides what a preemption is).
+				d.key = x.lastState*1099511628211 ^ uint64(x.last.ID+1)
+				if d.key == 0 {
+					d.key = 1
+				}
+			}
 			choice = x.decide(d)
 		}
 		if canKill && choice == n-1 {
@@ -396,8 +409,11 @@ func (x *Exec) run() {
 		t.wake <- true
 		<-x.parked
 		active = nil
-		if x.states != nil {
-			x.states[x.stateHash()] = struct{}{}
+		if x.states != nil || x.KeyStates {
+			x.lastState = x.stateHash()
+			if x.states != nil {
+				x.states[x.lastState] = struct{}{}
+			}
 		}
 		if x.OnStep != nil {
 			x.OnStep(x)
